@@ -795,3 +795,136 @@ class FlowSetExpr(SetExpr):
             (self.used_all & used)
         return {region: val for region, val in tab.items()
                 if region <= used}
+
+
+# ---------------------------------------------------------------------------
+# copy-propagated text, helper-lifted guards
+# ---------------------------------------------------------------------------
+
+_ENV_CACHE = {}
+
+
+def func_env(func):
+    key = id(func.node)
+    if key not in _ENV_CACHE:
+        _ENV_CACHE[key] = N.copy_env(func.node)
+    return _ENV_CACHE[key]
+
+
+def rexpr(func, expr):
+    """expr with single-assignment locals of func replaced by their
+    definitions."""
+    return N.subst(expr, func_env(func))
+
+
+def rtxt(func, expr):
+    """Text of expr after copy propagation of the function's locals."""
+    if expr is None:
+        return ''
+    return N.txt(rexpr(func, expr))
+
+
+def _outcome_atoms(nzc, expr, want):
+    """Atoms established when ``expr`` evaluates truthy (want) / falsy."""
+    form = nzc.formula(expr)
+
+    def neg(form_):
+        if form_[0] == 'atom':
+            return ('atom', N.negate(form_[1]))
+        kind = 'or' if form_[0] == 'and' else 'and'
+        return (kind, [neg(p) for p in form_[1]])
+    if not want:
+        form = neg(form)
+    if form[0] == 'atom':
+        return [form[1]]
+    if form[0] == 'and':
+        return [p[1] for p in form[1] if p[0] == 'atom']
+    return []
+
+
+def edge_establishes(ctx, func, nz, edge, atom_pred, depth=0):
+    """Taking ``edge`` establishes an atom accepted by ``atom_pred`` -
+    directly, or because the edge is the outcome of a call to a helper of
+    the package all of whose returns with that outcome establish one."""
+    for atom in nz.facts_of_edge(edge):
+        if atom_pred(atom):
+            return True
+    node = edge.src
+    if node.kind != 'test' or edge.kind not in ('true', 'false') or \
+            depth >= 2 or func is None:
+        return False
+    expr = node.ast
+    if not isinstance(expr, ast.Call):
+        return False
+    callee = resolve_call(ctx, func, expr)
+    if callee is None or callee is func:
+        return False
+    want = edge.kind == 'true'
+    # bind parameters to the (copy-propagated) argument expressions
+    params = callee.params()
+    if params and params[0] in ('self', 'cls') and \
+            isinstance(expr.func, ast.Attribute):
+        params = params[1:]
+    binding = {}
+    cenv = nz.env_of(node) or {}
+    for idx, arg in enumerate(expr.args):
+        if idx < len(params):
+            binding[params[idx]] = N.subst(arg, cenv)
+    for kw in expr.keywords:
+        if kw.arg:
+            binding[kw.arg] = N.subst(kw.value, cenv)
+    env = dict(func_env(callee))
+    env.update(binding)
+    nzc = N.Normaliser(nz.helpers, env=env)
+    graph = ctx.cfg(callee)
+
+    def inner(edge_):
+        return edge_establishes(ctx, callee, nzc, edge_, atom_pred,
+                                depth + 1)
+    exits = [n for n in graph.nodes if n.kind == 'return']
+    falls = [e.src for e in graph.exit.pred if e.src.kind != 'return']
+    found = False
+    for ret in exits:
+        val = ret.ast.value
+        if val is None or isinstance(val, ast.Constant):
+            outcome = bool(val.value) if val is not None else False
+            if outcome != want:
+                continue
+            found = True
+            if not guarded_by(graph, ret, inner, follow_exc=False):
+                return False
+        else:
+            found = True
+            atoms = _outcome_atoms(nzc, val, want)
+            if any(atom_pred(a) for a in atoms):
+                continue
+            if isinstance(val, ast.Call):
+                # return other_helper(...)
+                sub = resolve_call(ctx, callee, val)
+                fake_ok = False
+                if sub is not None and depth + 1 < 2:
+                    test = C.Node(-1, 'test', val, cfg=graph)
+                    fake = C.Edge(test, test, 'true' if want else 'false')
+                    fake_ok = edge_establishes(ctx, callee, nzc, fake,
+                                               atom_pred, depth + 1)
+                if fake_ok:
+                    continue
+            if not guarded_by(graph, ret, inner, follow_exc=False):
+                return False
+    if falls and not want:
+        found = True
+        for node_ in falls:
+            if not guarded_by(graph, graph.exit, inner, follow_exc=False):
+                return False
+    return found
+
+
+def guarded_by_atoms(ctx, func, graph, site, atom_pred, nz=None,
+                     start=None, follow_exc=True):
+    """Every path to ``site`` establishes an atom accepted by atom_pred
+    (directly or through a helper predicate of the package)."""
+    nz = nz or N.Normaliser()
+    return guarded_by(
+        graph, site,
+        lambda e: edge_establishes(ctx, func, nz, e, atom_pred),
+        start=start, follow_exc=follow_exc)
